@@ -469,6 +469,10 @@ class CT:
                     return "%s[%s..%s]" % (base, lo, hi)
         if nm in ("wrapping_mul", "wrapping_add", "min", "max", "saturating_add", "saturating_mul") and len(args) == 2:
             args = sorted(args)
+        if nm in ("new", "default", "with_capacity") and not c.get("trait"):
+            segs = re.sub(r"<[^<>]*>", "", re.sub(r"<[^<>]*>", "", c.get("def") or nm)).split("::")
+            segs = [x for x in segs if x]
+            return "%s(%s)" % ("::".join(segs[-2:]), ", ".join(args))
         ty = ""
         if nm in ("from", "into", "try_from", "try_into", "size_of", "default", "new", "cast"):
             ty = "::<%s>" % ",".join([c.get("self_ty") or ""] + list(c.get("args") or []))[:80]
